@@ -27,14 +27,14 @@ class C11(EngineProp):
     level_note = 'Trusted: as C07; a cut while a user coroutine handler is suspended mid-await is represented only as "handler pending".'
     design_ref = '§5 C11'
     rule = ('as C07, with orderly EOF, transport error or explicit close() injected after 3..22 groups on any mix of pending interactions in both roles, followed by further '
-            'application activity; plus a real TransportTCP endpoint (either role) with 0..2 pending request-responses, stream subscriptions and suspended incoming handlers whose byte stream is cut after 0..40 bytes of a frame by EOF, ConnectionResetError or TimeoutError, or by the application\'s own close() of the live connection, with an on_close handler that may issue one more request (it must be failed when close() returns); then 0..2 request-responses / streams issued on the dead endpoint before the application calls close() (close() must fail them); non-trivial = at least one interaction pending at the moment of loss; distinct = distinct entry-point sequence')
+            'application activity; plus a real TransportTCP endpoint (either role) with 0..2 pending request-responses, stream subscriptions and suspended incoming handlers whose byte stream is cut after 0..40 bytes of a frame by EOF, ConnectionResetError, TimeoutError, IncompleteReadError or RuntimeError from the stream reader, or by the application\'s own close() of the live connection, with an on_close handler that may issue one more request (it must be failed when close() returns); then 0..2 request-responses / streams issued on the dead endpoint before the application calls close() (close() must fail them); non-trivial = at least one interaction pending at the moment of loss; distinct = distinct entry-point sequence')
     assumptions = ['application cancel()/on_close callbacks do not raise unless scripted to']
 
     # -- the byte-stream transport: the link is cut between any two bytes, by EOF or by a read error -------------------------
     def cases(self, rng, tier):
         out = super().cases(rng, tier)
         for _ in range(240 if tier == 'quick' else 3000):
-            out.append({'mode': 'tcp', 'role': rng.choice(['client', 'server']), 'profile': 'tcp-cut', 'cut': rng.choice(['eof', 'reset', 'timeout', 'close']),
+            out.append({'mode': 'tcp', 'role': rng.choice(['client', 'server']), 'profile': 'tcp-cut', 'cut': rng.choice(['eof', 'reset', 'timeout', 'close', 'incomplete', 'runtime']),
                         # the application's close notification asks once more (a last request / a retry): the endpoint is going away, it must be failed
                         'ask_in_on_close': rng.random() < 0.4, 'ask_in_on_error': rng.random() < 0.3,
                         # ... or fails (a flush of application state that hits a full disk, say)
@@ -146,6 +146,10 @@ class C11(EngineProp):
             reader.feed_eof()
         elif case['cut'] == 'reset':
             reader.set_exception(ConnectionResetError(104, 'Connection reset by peer'))
+        elif case['cut'] == 'incomplete':
+            reader.set_exception(asyncio.IncompleteReadError(b'', 10))        # link failures are not all OSErrors
+        elif case['cut'] == 'runtime':
+            reader.set_exception(RuntimeError('the stream reader was closed under the transport'))
         else:
             reader.set_exception(TimeoutError(110, 'Connection timed out'))
         await loop.settle()
